@@ -154,7 +154,7 @@ PROPS = {
         "design_ref": "DESIGN.md section 5, C11 and Appendix B",
     },
     "C12": {
-        "modules": ["Qvnt.Props.C12"],
+        "modules": ["Qvnt.Props.C12", "Qvnt.Props.Code.C12"],
         "tie": [tie3(r"int_process_(apply_gate|gate|if|node|nodes|node_apply)_eq|int_(ast_changes|add_ast|new)_eq|processNode_inv|processApply_macros|foldlM_process|regsOf_eq|argsOf_eq|macro_process(_nested)?_eq|macro_argument_name_eq|macro_new_eq", r"UNSUPPORTED (mod\.rs: qasm/int/mod\.rs::(process_(apply_gate|gate|if|node|nodes)|ast_changes|add_ast|new):|macros\.rs)"), tiec(r"parse_\w+|sym_\w+")],
         "suites": [suite("fuzz", dict(count=1500, timeout=120), dict(count=60000, timeout=3000)),
                    suite("intnu", dict(count=200), dict(count=3000))],
@@ -237,7 +237,7 @@ PROPS = {
         "design_ref": "DESIGN.md section 5, C10",
     },
     "C13": {
-        "modules": ["Qvnt.Props.C13"],
+        "modules": ["Qvnt.Props.C13", "Qvnt.Props.Code.C13"],
         "tie": [tie3(r"int_process_(apply_gate|gate|if|node|nodes|node_apply)_eq|int_(ast_changes|add_ast|new)_eq|processNode_inv|processApply_macros|foldlM_process|regsOf_eq|argsOf_eq|macro_process(_nested)?_eq|macro_argument_name_eq|macro_new_eq", r"UNSUPPORTED (mod\.rs: qasm/int/mod\.rs::(process_(apply_gate|gate|if|node|nodes)|ast_changes|add_ast|new):|macros\.rs)"), tiec(r"parse_\w+"), tie3(r"int_check_(ident|reg_size|dup)_eq|int_process_(qreg|creg|measure|reset)_eq|int_get_[qc]_idx_eq|fold_idx_eq", r"UNSUPPORTED mod\.rs: qasm/int/mod\.rs::(check_(ident|reg_size|dup)|process_(qreg|creg|measure|reset)|get_[qc]_idx_with_context|get_idx_by_alias):")],
         "suites": [suite("c13", dict(count=600), dict(count=20000))],
         "mismatch_tags": [r"iadd\.result"],
